@@ -227,7 +227,7 @@ func (g *rgen) stmt(d int, inFunc bool) []string {
 			}
 			switch r.Intn(3) {
 			case 0:
-				if nt > 0 {
+				if nt > 0 && r.Chance(2, 3) {
 					t = append(t, "as", "ee")
 				} else {
 					t = append(t, "ee")
